@@ -728,8 +728,25 @@ func (m *Manager) GetStats() (*NATStats, error) {
 	var key uint32 = 0
 	var stats NATStats
 
-	if err := m.natStats.Lookup(&key, &stats); err != nil {
+	// The stats map is per-CPU: read one value per possible CPU and aggregate
+	var perCPU []NATStats
+	if err := m.natStats.Lookup(&key, &perCPU); err != nil {
 		return nil, err
+	}
+	for _, c := range perCPU {
+		stats.PacketsSNAT += c.PacketsSNAT
+		stats.PacketsDNAT += c.PacketsDNAT
+		stats.PacketsHairpin += c.PacketsHairpin
+		stats.PacketsDropped += c.PacketsDropped
+		stats.PacketsPassed += c.PacketsPassed
+		stats.SessionsCreated += c.SessionsCreated
+		stats.SessionsExpired += c.SessionsExpired
+		stats.PortExhaustion += c.PortExhaustion
+		stats.EIMHits += c.EIMHits
+		stats.EIMMisses += c.EIMMisses
+		stats.ALGTriggers += c.ALGTriggers
+		stats.ConntrackLookups += c.ConntrackLookups
+		stats.ConntrackHits += c.ConntrackHits
 	}
 
 	return &stats, nil
